@@ -232,6 +232,53 @@ fn run(name: &str, args: &[String]) -> Option<String> {
             make_aggsig_final_message(op, &mut m, &spend, &k);
             Some(hexo(&m))
         }
+        "cond.vcs" => {
+            // FLAGS MAXCOST CONSTS SIG TREE : the mempool pre-validation path.  Every spend (parent ph amount conds) of the
+            // tree becomes a CoinSpend whose puzzle is (q . conds) and whose solution is nil; ph must be the tree hash of
+            // that puzzle (the driver computes it), so the bundle yields exactly the conditions of the tree.
+            use chia_consensus::spendbundle_validation::validate_clvm_and_signature;
+            use chia_protocol::{Coin, CoinSpend, Program, SpendBundle};
+            use clvmr::serde::node_to_bytes;
+            let flags = ConsensusFlags::from_bits_truncate(dec(&args[0]) as u32);
+            let max_cost = dec(&args[1]);
+            let k = consts_of(&hx(&args[2]));
+            let sig = match Signature::from_bytes(hx(&args[3]).as_slice().try_into().unwrap()) {
+                Ok(s) => s,
+                Err(_) => return Some("ERR-BADSIG-ENCODING".into()),
+            };
+            let mut a = Allocator::new();
+            let node = node_from_bytes(&mut a, &hx(&args[4])).ok()?;
+            let mut spends = Vec::new();
+            let mut iter = first(&a, node).ok()?;
+            while let Some((sp, nxt)) = next(&a, iter).ok()? {
+                iter = nxt;
+                let parent = first(&a, sp).ok()?;
+                let r1 = chia_consensus::validation_error::rest(&a, sp).ok()?;
+                let ph = first(&a, r1).ok()?;
+                let r2 = chia_consensus::validation_error::rest(&a, r1).ok()?;
+                let amount = first(&a, r2).ok()?;
+                let r3 = chia_consensus::validation_error::rest(&a, r2).ok()?;
+                let conds = first(&a, r3).ok()?;
+                let one = a.new_atom(&[1]).unwrap();
+                let puzzle = a.new_pair(one, conds).unwrap();
+                let pbytes = node_to_bytes(&a, puzzle).unwrap();
+                let mut amt = [0_u8; 8];
+                let ab = a.atom(amount).as_ref().to_vec();
+                let ab = if ab.len() > 8 { ab[ab.len() - 8..].to_vec() } else { ab };
+                amt[8 - ab.len()..].copy_from_slice(&ab);
+                let coin = Coin::new(
+                    Bytes32::new(a.atom(parent).as_ref().try_into().ok()?),
+                    Bytes32::new(a.atom(ph).as_ref().try_into().ok()?),
+                    u64::from_be_bytes(amt),
+                );
+                spends.push(CoinSpend::new(coin, Program::from(pbytes), Program::from(vec![0x80_u8])));
+            }
+            let sb = SpendBundle::new(spends, sig);
+            Some(match validate_clvm_and_signature(&sb, max_cost, &k, flags) {
+                Ok((conds, pairs)) => format!("OK npairs={} spends={}", pairs.len(), conds.spends.len()),
+                Err(e) => err_name(&e),
+            })
+        }
         "cond.coinid" => {
             // PARENT PH AMOUNT -> Coin::coin_id (the coin-id function of chia-protocol)
             let coin = chia_protocol::Coin::new(Bytes32::new(b32(&args[0])), Bytes32::new(b32(&args[1])), dec(&args[2]));
